@@ -7,9 +7,13 @@ EXTENDS FitDefs
 CONSTANTS Datasets, Profiles, QuickOnly
 VARIABLES in, out, pc
 vars == <<in, out, pc>>
-Init == /\ \E p \in Profiles, n \in Datasets :
+Init == /\ \/ \E p \in Profiles, n \in Datasets :
              /\ (QuickOnly /\ p[2] = "current" => n \in {"good", "regimes", "latecool", "levelshift", "inverted", "flatn2"})      \* a default-profile fit takes 10 s
-             /\ in = [fam |-> p[1], prof |-> p[2], name |-> n]
+             /\ in = [fam |-> p[1], prof |-> p[2], name |-> n, prior |-> "none"]
+           \* the same model OBJECT was fitted on another meter before: every component must be the one a fresh object would get
+           \/ \E p \in Profiles, c \in {<<"good", "heatonly">>, <<"coolonly", "good">>, <<"other", "flat">>, <<"regimes", "other">>} :
+                /\ p[2] # "current"
+                /\ in = [fam |-> p[1], prof |-> p[2], name |-> c[1], prior |-> c[2]]
         /\ out = [res |-> "pending"] /\ pc = "call"
 Call == pc = "call" /\ out' = [res |-> "modelled"] /\ pc' = "done" /\ UNCHANGED in
 Next == Call
